@@ -1036,3 +1036,42 @@ pub fn sites_main(file: &str, tier: Tier, pat: &str) -> i32 {
     println!("{} of {} sites", n, sites.len());
     0
 }
+
+/// Every open known finding must still be reproducible from its kept replay file (otherwise
+/// the entry is stale: the defect moved or was repaired and the entry must be updated).
+pub fn selftest_known() -> i32 {
+    let known = match load_known() {
+        Ok(k) => k,
+        Err(e) => {
+            eprintln!("harness error: {}", e);
+            return 2;
+        }
+    };
+    let mut bad = 0;
+    let mut n = 0;
+    for k in known.iter().filter(|k| k.status == "open") {
+        n += 1;
+        let path = format!("{}/{}", verif_root(), k.example_replay);
+        let rf: ReplayFile = match std::fs::read_to_string(&path).ok().and_then(|t| serde_json::from_str(&t).ok()) {
+            Some(r) => r,
+            None => {
+                println!("STALE {}: no readable replay file {}", k.origin, path);
+                bad += 1;
+                continue;
+            }
+        };
+        let hit = exec_spec_isolated(&rf.spec, 1).map(|r| r.violations.iter().any(|v| v.class == k.class && (v.origin == k.origin || (!k.origin_fn.is_empty() && site_fn(&v.origin) == k.origin_fn)))).unwrap_or(false);
+        if hit {
+            println!("ok    {} {}", k.class, if k.origin.is_empty() { &k.origin_fn } else { &k.origin });
+        } else {
+            println!("STALE {} {}: {} does not reproduce it", k.class, k.origin, k.example_replay);
+            bad += 1;
+        }
+    }
+    println!("known findings: {} open, {} stale", n, bad);
+    if bad == 0 {
+        0
+    } else {
+        1
+    }
+}
